@@ -4,6 +4,7 @@ mod c01;
 mod c02;
 mod c02s;
 mod c03;
+mod c03c;
 mod c05;
 mod c06;
 mod c15;
